@@ -960,6 +960,7 @@ class Assert11(Family):
  <xs:element name="table">
   <xs:complexType><xs:sequence>
     <xs:element name="row" maxOccurs="unbounded">
+     <xs:alternative test="@total=99" type="NumRow"/>
      <xs:alternative test="@kind='n'" type="NumRow"/>
      <xs:alternative test="@kind='s'" type="StrRow"/>
      <xs:alternative type="AnyRow"/>
@@ -1002,6 +1003,10 @@ class Assert11(Family):
         out.append(Doc('a11-sc-valid', self._doc([good[0], '<sc>ab</sc>', '<sc/>', '<sc>xyz</sc>'])))
         out.append(Doc('a11-sc-empty', self._doc([good[1], '<sc/>', '<sc></sc>'])))
         out.append(Doc('a11-sc-bad', self._doc([good[0], '<sc>abcdef</sc>']), 'fault:assert'))
+        # the root's INHERITABLE attribute decides the type alternative of the rows
+        out.append(Doc('a11-inherit-valid', self._doc(['<row lo="1" hi="2"/>', '<row kind="s" lo="0" hi="0"/>'], total='99')))
+        out.append(Doc('a11-inherit-bad', self._doc(['<row lo="1" hi="2"/>', '<row kind="s" s="abcd"/>', '<row lo="3" hi="1"/>'],
+                                                   total='99'), 'fault:structure'))
         # an assertion on the ROOT type that looks at grandchildren
         out.append(Doc('a11-valid-deep', self._doc([good[0], '<row deep="1"><x/></row>', '<row deep="2" kind="other"><x/><y/></row>']),
                        tag='root-assert-on-grandchildren'))
